@@ -198,7 +198,8 @@ def main(argv=None):
     #     hash salt; a different result is a randomness source that escapes the seed
     cross = {"jobs": 0, "diverged": 0}
     if pid == "C07" and hasattr(mod, "cross_process_sample"):
-        idxs = mod.cross_process_sample(jobs, results)
+        idxs = mod.cross_process_sample(jobs, results) if args.tier == "quick" else \
+            mod.cross_process_sample(jobs, results, k_labelled=1200, k_other=300)
         if idxs:
             try:
                 fd = fresh_digests(pid, args.tier, seed, idxs, args.n, hashseed=777, field="result_digest")
